@@ -86,3 +86,31 @@ func H_C09_features() {
 	verifrt.Observe("branches", len(brs))
 	verifrt.Reach("returned")
 }
+
+// H_C09_languages (style P, builder state constructed directly): a shard builder that has already
+// seen k distinct languages (k = 0, 1, 200, 255, 256, 257, 300, 1000: the language table is filled
+// in directly instead of adding k documents) receives two documents in two further languages; both
+// are written and read back by the real code and must come back with their own language, also
+// beyond the one-byte boundary of the 16-bit language code.
+func H_C09_languages() {
+	verifrt.ClockConcrete()
+	b, err := NewShardBuilder(verifRepo(12, "langs", "main"))
+	verifrt.Assert(err == nil, "builder")
+	k := []int{0, 1, 200, 255, 256, 257, 300, 1000}[verifrt.Concretize(verifrt.IntRange("languagesSeen", 0, 7))]
+	for i := 0; i < k; i++ {
+		b.languageMap["L"+string(rune('a'+i%26))+string(rune('a'+(i/26)%26))+string(rune('a'+i/676))] = uint16(i)
+	}
+	verifrt.Assert(len(b.languageMap) == k, "prefill")
+	verifrt.Assert(b.Add(Document{Name: "one.x", Content: []byte("first document\n"), Branches: []string{"main"}, Language: "TargetOne", Category: FileCategoryDefault}) == nil, "add")
+	verifrt.Assert(b.Add(Document{Name: "two.y", Content: []byte("second document\n"), Branches: []string{"main"}, Language: "TargetTwo", Category: FileCategoryDefault}) == nil, "add")
+	d := verifLoad(verifWriteShard(b, "verif-langs.zoekt"))
+	res, serr := d.Search(context.Background(), &query.Const{Value: true}, &zoekt.SearchOptions{Whole: true})
+	verifrt.Assert(serr == nil && len(res.Files) == 2, "both documents are read back")
+	if len(res.Files) == 2 {
+		verifrt.Assert(res.Files[0].Language == "TargetOne" && res.Files[1].Language == "TargetTwo", "every document is read back with its own language")
+	}
+	lr, lerr := d.Search(context.Background(), &query.Language{Language: "TargetTwo"}, &zoekt.SearchOptions{})
+	verifrt.Assert(lerr == nil && len(lr.Files) == 1 && lr.Files[0].FileName == "two.y", "a language filter selects exactly the documents of that language")
+	verifrt.Observe("languagesSeen", k)
+	verifrt.Reach("returned")
+}
